@@ -46,7 +46,7 @@ def run_reproducers(ctx, prop):
 
 def _array_gc_order(v, events):
     """KF-ARRAY-GC-ORDER: an insert/move/append anchored on (or moving) an array
-    element that ANOTHER client deletes (or replaces) in the same history, the failure
+    element that ANOTHER client deletes, replaces or moves away in the same history, the failure
     being a silent content difference (no error anywhere in the trace)."""
     if v["tag"] not in ("RefEquiv", "Converged", "BuildEquiv"):
         return False
@@ -60,6 +60,9 @@ def _array_gc_order(v, events):
         a = e.get("args") or {}
         if "deleted" in a:
             deleted.setdefault(a["deleted"], set()).add(e["c"])
+        if "moved" in a:
+            # a move abandons the element's slot (a dead slot that GC purges) just like a deletion does
+            deleted.setdefault(a["moved"], set()).add(e["c"])
         if "anchor" in a:
             anchors.append((e["c"], a["anchor"]))
         if "moved" in a:
@@ -67,11 +70,75 @@ def _array_gc_order(v, events):
     return any(val in deleted and (deleted[val] - {c}) for c, val in anchors)
 
 
-TRIGGERS = {"KF-ARRAY-GC-ORDER": _array_gc_order}
+def _text_gc_order(v, events):
+    """KF-RGA-GC-ORDER (text): one client deletes text while another client
+    inserts text in the same history, and the failure is a silent difference in
+    the ORDER of the text only: every replica and the reference hold the same
+    multiset of characters at the end."""
+    import json as _json
+    if v["tag"] not in ("RefEquiv", "Converged", "BuildEquiv"):
+        return False
+    if any(e.get("err") for e in events if e["ev"] in ("Sync", "Attach", "Detach", "Ref", "Build", "Undo", "Redo")):
+        return False
+    deleters, inserters = set(), set()
+    for e in events:
+        if e["ev"] == "Edit" and e.get("outcome") == "ok" and (e.get("op") or {}).get("k") == "txt.edit":
+            a = e.get("args") or {}
+            if a.get("to", 0) > a.get("from", 0):
+                deleters.add(e["c"])
+            if a.get("s"):
+                inserters.add(e["c"])
+    if not any(d != i for d in deleters for i in inserters):
+        return False
+    # the disagreement itself, at the violating event: the replica (or the server's
+    # rebuild) against the reference at the same log prefix
+    ev = v.get("event") or {}
+    refs = {e["s"]: e["content"] for e in events if e["ev"] == "Ref"}
+    bag = lambda doc: "".join(sorted("".join(x.get("val", "") for x in doc.get("t", []))))
+    rest = lambda doc: _json.dumps({k: x for k, x in doc.items() if k != "t"}, sort_keys=True)
+
+    def order_only(mine, theirs):
+        try:
+            a, b = _json.loads(mine), _json.loads(theirs)
+        except Exception:
+            return False
+        return bag(a) == bag(b) and rest(a) == rest(b) and a.get("t") != b.get("t")
+
+    if ev.get("ev") == "Build":
+        n = ev.get("s")
+        return n in refs and order_only(ev.get("content"), refs[n])
+    if ev.get("ev") == "Ref":
+        # the reference reached prefix n: the replicas already at n are the ones that disagree
+        n = ev.get("s")
+        latest = {}
+        for e in events:
+            if e is ev or (e["ev"] == "Ref" and e["s"] == n):
+                break
+            if e.get("rep") and e["rep"].get("cp"):
+                latest[e["c"]] = e["rep"]
+        bad = [r["content"] for r in latest.values() if r["cp"][0] == n and not r.get("pend") and r["content"] != ev["content"]]
+        return bool(bad) and all(order_only(c, ev["content"]) for c in bad)
+    if ev.get("rep"):
+        n = (ev["rep"].get("cp") or [None])[0]
+        return n in refs and order_only(ev["rep"].get("content"), refs[n])
+    return False
 
 
-def attribute(prop, v, events):
+def _undo_move_anchor(v, events):
+    """KF-UNDO-MOVE-ANCHOR-PURGED: the history undoes/redoes an array move and a
+    replica rejects a change with 'MoveAfter ...: child not found'."""
+    kinds = {(e.get("op") or {}).get("k") for e in events if e["ev"] == "Edit"}
+    if not any(e["ev"] in ("Undo", "Redo") for e in events) or not (kinds & {"arr.mov", "arr.movfront", "arr.movlast"}):
+        return False
+    return any("MoveAfter" in (e.get("err") or "") and "child not found" in (e.get("err") or "") for e in events)
+
+
+TRIGGERS = {"KF-ARRAY-GC-ORDER": _array_gc_order, "KF-TEXT-GC-ORDER": _text_gc_order, "KF-UNDO-MOVE-ANCHOR-PURGED": _undo_move_anchor}
+
+
+def attribute(prop, v, events, first=None):
     """Returns the id of the open finding whose trigger predicate explains v, or None."""
+    v = dict(v, event=first)
     for f in open_findings(prop):
         t = TRIGGERS.get(f["id"])
         if t and t(v, events):
